@@ -242,14 +242,19 @@ class GeminiServerProtocol(asyncio.Protocol):
                 # Return early - callback will handle the rest
                 return
             except RuntimeError:
-                # No event loop running (probably in tests) - skip middleware
+                # The chain could not be consulted (e.g. no event loop running):
+                # refuse rather than serving the request unchecked
                 logger.warning(
-                    "middleware_skipped",
+                    "middleware_unavailable",
                     client_ip=client_ip,
                     reason="no_event_loop",
                 )
+                self._send_error_response(
+                    StatusCode.TEMPORARY_FAILURE, "Middleware error"
+                )
+                return
 
-        # No middleware or middleware skipped - route directly
+        # No middleware configured - route directly
         self._route_request(request, client_ip)
 
     def _send_response(self, response: GeminiResponse) -> None:
